@@ -779,7 +779,7 @@ func PCR0IsSet(txtAPI hwapi.LowLevelHardwareInterfaces, p *PreSet) (bool, error,
 }
 
 func checkTPM2NVAttr(mask, want, optional tpm2.NVAttr) bool {
-	return (1 >> mask & (want | optional)) == 0
+	return mask|optional == want|optional
 }
 
 func readPSLCPPolicy(txtAPI hwapi.LowLevelHardwareInterfaces) (*tools.LCPPolicy, *tools.LCPPolicy2, error) {
